@@ -30,11 +30,13 @@
 #include "fiber.h"
 #include "vrt_fiber.h"
 
-extern void vrt_wb_register_io(const char* name, int fd);
-extern void vrt_wb_register_ioflags(const char* name, int fd);
-extern void vrt_wb_io_hook(void);
-extern int vrt_wb_event_fd(void);
-extern int vrt_wb_io_nwaiters(int fd);
+/* white-box functions of vrt/wrap_event_io.c and vrt/wrap_io.c (tools/build_fiber_io.sh).  Weak: the plain
+   tools/build_fiber.sh links this file too (all drivers/ext_*.c) but without those wrappers; the I/O scenarios
+   then refuse to run instead of breaking the link. */
+extern void vrt_wb_register_io(const char* name, int fd) __attribute__((weak));
+extern void vrt_wb_register_ioflags(const char* name, int fd) __attribute__((weak));
+extern void vrt_wb_io_hook(void) __attribute__((weak));
+extern int vrt_wb_io_nwaiters(int fd) __attribute__((weak));
 extern void vrt_emit_raw(const char* fmt, ...);
 
 #define UNIT_PIPE 4096
@@ -153,6 +155,10 @@ int vrt_io_epoll_wait(int epfd, struct epoll_event* ev, int max, int timeout) {
 /* ------------------------------------------------------------------ objects */
 static int io_obj(const char* kind, const char* name, long arg, void** obj) {
   if (strcmp(kind, "sockpair") && strcmp(kind, "pipe") && strcmp(kind, "listener")) return 0;
+  if (!vrt_wb_io_hook || !vrt_wb_register_io || !vrt_wb_register_ioflags || !vrt_wb_io_nwaiters) {
+    fprintf(stderr, "ext_io: this binary was not built with tools/build_fiber_io.sh (I/O wrappers missing)\n");
+    exit(68);
+  }
   if (!g_hooked) {
     g_hooked = 1;
     vrt_wb_io_hook();
